@@ -171,6 +171,14 @@ func guard(f func() error) (err error, panicked bool) {
 	return f(), false
 }
 
+func isCrash(s string) bool {
+	switch s {
+	case "-", "b1", "a1", "b2", "a2", "b3", "a3":
+		return true
+	}
+	return false
+}
+
 func isDerived(s string) bool {
 	f := strings.Split(s, ".")
 	if len(f) != 5 {
@@ -249,6 +257,9 @@ func execCase(cs core.Case) []string {
 	for _, op := range cs.Ops {
 		out = append(out, execOp(&c, op))
 	}
+	if c != nil {
+		c.abClose()
+	}
 	if c != nil && c.evDB != nil {
 		c.evDB.Close()
 	}
@@ -297,8 +308,12 @@ func execOp(cp **chain, op string) (res string) {
 		if c != nil && c.evDB != nil {
 			c.evDB.Close()
 		}
+		if c != nil {
+			c.abClose()
+		}
 		*cp = newChain(A, D)
 		(*cp).M = M
+		(*cp).ab = m["mode"] == "ab"
 		return "ok"
 	case "blk":
 		if c == nil {
@@ -341,6 +356,10 @@ func execOp(cp **chain, op string) (res string) {
 		if !okA || !okD || !isTok(hashTok) || !isDerived(dTok) {
 			return "bad-op"
 		}
+		if c.ab { // the real chain is made by ApplyBlock; the line only declares time and validators
+			c.blks = append(c.blks, blkDef{t: T, vals: vals, round: int32(R), flags: flags})
+			return "ok"
+		}
 		c.appendBlock(blkDef{t: T, vals: vals, round: int32(R), flags: flags})
 		gh, gd := headerToks(&c.blocks[H-1].Header)
 		if gh != hashTok || gd != dTok {
@@ -377,9 +396,22 @@ func execOp(cp **chain, op string) (res string) {
 		}
 		c.defs[d.id] = d
 		return "ok"
+	case "abinit":
+		h, okH := get("h")
+		if !isInt(h, okH) || c.pool != nil || !c.ab {
+			return "bad-op"
+		}
+		H, _ := strconv.ParseInt(h, 10, 64)
+		if H < 1 || H > c.n() {
+			return "bad-op"
+		}
+		if !c.abInit(H) {
+			return "init-error"
+		}
+		return "ok " + c.abHeights() + " " + c.view()
 	case "init":
 		h, okH := get("h")
-		if !isInt(h, okH) || c.pool != nil {
+		if !isInt(h, okH) || c.pool != nil || c.ab {
 			return "bad-op"
 		}
 		H, _ := strconv.ParseInt(h, 10, 64)
@@ -400,14 +432,48 @@ func execOp(cp **chain, op string) (res string) {
 	}
 	if c.dead { // a panic killed the process: only a restart (and the stores) continue
 		switch f[0] {
-		case "grow", "restart":
+		case "grow", "restart", "abrestart", "apply":
 		case "add", "check", "update", "cupdate", "report", "pe", "recv", "rpcbroadcast":
 			if r := deadOp(c, f[0], m); r != "" {
 				return r
 			}
 		}
 	}
+	if c.ab {
+		switch f[0] {
+		case "grow", "update", "cupdate", "restart":
+			return "bad-op"
+		}
+	}
 	switch f[0] {
+	case "apply":
+		h, okH := get("h")
+		e, okE := get("ev")
+		ds, ok := c.lookupAll(e, okE)
+		cr, okC := get("crash")
+		if !c.ab || !isInt(h, okH) || !ok || !okC || !isCrash(cr) {
+			return "bad-op"
+		}
+		H, _ := strconv.ParseInt(h, 10, 64)
+		if c.dead || H != c.blockStore.Height()+1 || c.abn.state.LastBlockHeight != c.blockStore.Height() || H > c.n() {
+			return "bad-op"
+		}
+		for _, d := range ds {
+			if !d.vb {
+				return "bad-op"
+			}
+		}
+		r := c.abApply(H, evList(ds), cr)
+		if r == "crash" || r == "panic" {
+			c.dead = true
+		}
+		return r + " " + c.abHeights() + " " + c.view()
+	case "abrestart":
+		if !c.ab || len(f) != 1 {
+			return "bad-op"
+		}
+		r := c.abRestart()
+		return r + " " + c.abHeights() + " " + c.view()
 	case "grow":
 		h, okH := get("h")
 		if !isInt(h, okH) {
@@ -582,7 +648,7 @@ func execOp(cp **chain, op string) (res string) {
 		}
 		var msg tmproto.EvidenceList
 		for _, d := range ds {
-			pb, err := types.EvidenceToProto(d.raw)
+			pb, err := d.toWire()
 			if err != nil {
 				return "bad-op"
 			}
